@@ -493,6 +493,8 @@ class NetRunner:
             while time.time() - t1 < (240 if tier == "thorough" else 60) and not rep.violations and k < 4000:
                 meta, cfg = gen_desc.gen_case(srng, families=fams, algos=algs)
                 k += 1
+                if CONFIG[pid].get("skip_xy_offset") and any("xy_id_offset" in e for e in cfg["endpoints"]):
+                    continue                 # outside this property's quantifier, as in the main exploration
                 stats["search-cases"] += 1
                 res = run_case(drv, cfg, [pid], model=False)
                 if res["status"] != "ok":
